@@ -1,7 +1,7 @@
 (* Prop_C09.v — property theorems for C09, and nothing else: each statement is closed
    by `exact <lemma>` and followed by Print Assumptions. *)
 From Dig Require Import Base Sig State Graph GraphProofs Register Resolve Run Spec Check
-  ErrTable Err ErrTableCheck GoTypes Parse RunRaw P_Parse P_Frame P_Reg P_Keys.
+  ErrTable Err ErrTableCheck GoTypes Parse RunRaw P_Parse P_Frame P_Reg P_Keys P_Once P_Term P_Refine.
 
 (* ---- C09: in every accepted signature single keys carry no group name and
         group keys carry one, so a single key and a group key never coincide ---- *)
@@ -23,3 +23,13 @@ Theorem C09_rules_hold : forall cfg b du h, wf_scopes h = true -> hist_kinds_ok 
   walk (fun r _ o ob => chk_keys_op r o ob) 0 reg0 [] h (map obs_of (run cfg b du h)) = [].
 Proof. exact P_Keys.keys_rules_ok. Qed.
 Print Assumptions C09_rules_hold.
+
+(* ---- C09: provenance part (every consumer receives what the spec prescribes:
+        nearest decorator's output, else nearest provider's, exact key) up to the
+        recorded known findings D12 / D13 ---- *)
+Theorem C09_prov_up_to_known_findings : forall cfg bt du h,
+  wf_scopes h = true -> wf_strict h = true -> P_Once.wf_fns h = true -> cfg_dry cfg = false ->
+  forall i c, In (i, c) (chk_prov bt h (map obs_of (run cfg (beh_of bt) du h))) ->
+  c = 112 \/ c = 132 \/ (c = 120 /\ has_opt h = true /\ has_dec h = true).
+Proof. exact P_Refine.prov_refines. Qed.
+Print Assumptions C09_prov_up_to_known_findings.
